@@ -201,7 +201,35 @@ func (g *TxGen) Gen(t *rapid.T) *TxDesc {
 	note := ""
 	kinds := []string{"transfer", "transfer", "burn", "escrow", "escrow", "reclaim", "reclaim", "allow", "withdraw", "amend", "proposal", "vote", "vote",
 		"vaultCreate", "vaultAction", "refresh", "unfreeze", "freshness", "deregister", "foreign"}
+	if g.Profile == "hostile" {
+		kinds = append(kinds, "garbage", "garbage", "system", "oversized", "truncated")
+	}
 	kind := rapid.SampledFrom(kinds).Draw(t, "kind")
+	switch kind {
+	case "garbage":
+		n := rapid.IntRange(0, 40).Draw(t, "garbageLen")
+		raw := make([]byte, n)
+		for i := range raw {
+			raw[i] = rapid.Byte().Draw(t, "gb")
+		}
+		return &TxDesc{Raw: raw, Signer: "-", Method: "garbage", Note: "garbage bytes", Mutated: "garbage"}
+	case "system":
+		// a user-signed system method (only the proposer may inject these)
+		raw := SignTx(a.Signer, uint64(rapid.IntRange(0, 1).Draw(t, "sysNonce")), nil, "consensus.Meta", map[string][]byte{"state_root": make([]byte, 32), "events_root": make([]byte, 32)})
+		return &TxDesc{Raw: raw, Signer: a.Name, Addr: a.Addr, Method: "consensus.Meta", Note: "user-signed system method", Mutated: "system-method"}
+	case "oversized":
+		big := make([]byte, g.W.Spec.MaxTxSize+uint64(rapid.IntRange(1, 100).Draw(t, "over")))
+		raw := SignTx(a.Signer, acct.General.Nonce, &transaction.Fee{Gas: 1000000}, staking.MethodTransfer, map[string][]byte{"pad": big})
+		return &TxDesc{Raw: raw, Signer: a.Name, Addr: a.Addr, Method: staking.MethodTransfer, Note: "oversized", Mutated: "oversized"}
+	case "truncated":
+		d := g.finish(t, a, acct, staking.MethodTransfer, &staking.Transfer{To: a.Addr, Amount: q(1)}, "truncated", "")
+		g.nonceAdd[a.Addr] = 0
+		if len(d.Raw) > 2 {
+			d.Raw = d.Raw[:rapid.IntRange(1, len(d.Raw)-1).Draw(t, "truncAt")]
+		}
+		d.Mutated, d.ExpectAuthOK = "truncated", false
+		return d
+	}
 	if a.Entity == g.W.Entities[0] && (kind == "reclaim" || kind == "deregister") {
 		// The anchor validator entity never reclaims its stake or deregisters: keeps the documented
 		// precondition of C10 (enough stake-eligible validators remain) true by construction.
